@@ -97,7 +97,21 @@ def assemble(machine, prog):
     for off, raw in patches.items():
         image[off - lo:off - lo + len(raw)] = raw
     fin = loc_db.get_location_offset(loc_db.get_name_location("fin"))
-    return bytes(image), fin
+    image = bytes(image)
+    # the bytes must decode back to as many instructions as the text has (an assembler candidate with
+    # stray bytes would otherwise turn the program into something the templates never meant)
+    from miasm.core.bin_stream import bin_stream_str
+    bs = bin_stream_str(image, base_address=P.CODE_ADDR)
+    off, count = P.CODE_ADDR, 0
+    while off < P.CODE_ADDR + len(image):
+        ins = machine.mn.dis(bs, prog["bits"], off)
+        if ins is None:
+            raise Rejected("undecodable")
+        off += ins.l
+        count += 1
+    if count != sum(1 for l in prog["text"].splitlines() if l.startswith("    ")):
+        raise Rejected("inconsistent")
+    return image, fin
 
 
 def input_bytes(prog, inp):
@@ -335,7 +349,6 @@ def classify_exc(exc):
 # --------------------------------------------------------------------------
 
 def run_program(rec, rng, machine, prog, engine, strat_name, max_runs, tag):
-    import z3
     from miasm.analysis.dse import DriftException, DSEPathConstraint
     from miasm.jitter.jitload import JitterException
     from vf.models import c41_progs as P
@@ -416,8 +429,11 @@ def run_program(rec, rng, machine, prog, engine, strat_name, max_runs, tag):
             status = "fail"
             break
         except JitterException as exc:
+            # the program itself faults on this input: not a DSE matter; the aborted run leaves the
+            # engine's modification tracker behind, so the exploration of this program stops here
             rec.count("concrete_fault")
-            continue
+            status = "concrete_fault"
+            break
         except AssertionError as exc:
             wit["trace"] = [hex(a) for a in dse.v_trace[-12:]]
             import traceback
@@ -563,7 +579,6 @@ def run_shard(params, rec):
     n = params["n"]
     n_gcc = params.get("n_gcc", 1)
     shard = params.get("shard", 0)
-    i = 0
     made = 0
     attempts = 0
     while made < n and attempts < n * 5:
